@@ -450,6 +450,10 @@ for _id, _prop, _rule, _desc, _eb in [
     ("c07-indef-string-loop-inverted", "C07", "R07.2", "read_string looping while the next byte IS the stop code", False),
     ("c01-filled-flag-lowered", "C01", "R01.17", "add_malformed_message lowering mmd_filled after storing the payload", False),
     ("c01-filled-flag-not-raised", "C01", "R01.17", "add_question_response_record storing qrs.qr_type without raising qrs_filled", False),
+    ("c06-branch-without-emission", "C06", "R06.8", "write(int16_t) whose non-negative branch lost its write_int call", False),
+    ("c05-eof-true-with-block", "C05", "R05.7", "read_block starting with eof = true: every decoded block is announced as the end", False),
+    ("c05-eof-not-set-at-break", "C05", "R05.7", "read_block that does not raise eof when it meets the stop code of the block array", False),
+    ("c05-blocks-not-counted", "C05", "R05.7", "read_block that does not count the blocks of a definite-length block array", False),
     ("c19-memo-not-reset", "C19", "R19.2", "ip-address lookup memo (C12g/3) that CdnsBlock::operator= does not reset", False),
     ("c16-guard-armed-early", "C16", "R16.6", "BlockClearGuard (C12g/2) armed before the write it guards", False),
     ("c16-guard-armed-early-c12", "C12", "R12.4", "BlockClearGuard (C12g/2) armed before the write it guards", False),
